@@ -32,9 +32,9 @@ P = {
  ["which of two tokens declaring the same name wins under the default processor", "the round-trip formulation 'substituting back reproduces the path' (the per-variable statement is proved instead)", "what a JSR311 group captures (A-JSR)"],
  TECH),
 "C05": (True,
- "Deductive proof that sortedMimes returns the ranking of the usable ranges of the Accept header: the list equals, entry by entry, a ranking witness (media type and weight of each range taken from the header grammar: text before the first ';' and the value of the q parameter wherever it stands among the parameters, both without the optional whitespace around ',' ';' '='), and inductive lemmas prove about that witness what the statement asks — every position holds a usable range, every usable range has exactly one position, greater q first and header order on ties; that insertMime places an entry behind every entry of at least its quality and before the first entry of lower quality and keeps the order of the others; and that Response.EntityWriter, when every produced media type has a writer registered under its own name, returns the writer of the range the header ranks highest among the ranges the route can answer ('*/*' standing for the first Produces entry), never answers 'no writer' when some usable range can be answered from the Produces list, and is total; that a space before or behind a range changes neither its media type nor its weight (lemmas over the Trim model); that WriteHeaderAndEntity hands the value to the chosen writer exactly once (or records and sends 406) and that writeXML/writeJSON and the convenience writers label the response with the content type they were given.",
+ "Deductive proof that sortedMimes returns the ranking of the usable ranges of the Accept header: the list equals, entry by entry, a ranking witness (media type and weight of each range taken from the header grammar: text before the first ';' and the value of the q parameter wherever it stands among the parameters, both without the optional whitespace around ',' ';' '='), and inductive lemmas prove about that witness what the statement asks — every position holds a usable range, every usable range has exactly one position, greater q first and header order on ties; that insertMime places an entry behind every entry of at least its quality and before the first entry of lower quality and keeps the order of the others; and that Response.EntityWriter, when every produced media type has a writer registered under its own name, returns the writer of the range the header ranks highest among the ranges the route can answer ('*/*' standing for the first Produces entry), never answers 'no writer' when some usable range can be answered from the Produces list, and is total; that a space before or behind a range changes neither its media type nor its weight (lemmas over the Trim model); that the range on which the router admitted the request (matchesAccept equals acceptAdmits, proved under C01) is a range the entity writer can answer — the router's and the writer's reading of the media type are the same text (string lemmas by course-of-values induction) — so a request admitted on Accept grounds is not answered 406 when the admitting range has a usable weight; that WriteHeaderAndEntity hands the value to the chosen writer exactly once (or records and sends 406) and that writeXML/writeJSON and the convenience writers label the response with the content type they were given.",
  COMMON_ASSUME + "strconv.ParseFloat as a deterministic uninterpreted function into the reals (NaN and infinities excluded: a q-value of NaN would compare false both ways); models of strings.Split/Trim; accessorAt's contract (proved, C16).",
- ["the Content-Type header itself is set by the registered accessor's Write (user code for custom registrations; the built-in writeJSON/writeXML set the content type they were registered with)", "ranges whose q-value is not a number rank nowhere (then the router may admit a request on Accept grounds that the entity writer answers from its fallbacks: the substring lookup over the registry map, DefaultResponseMimeType, the first produced type) — documented as D17, not checked", "q=0 is treated as a weight like any other"],
+ ["the Content-Type header itself is set by the registered accessor's Write (user code for custom registrations; the built-in writeJSON/writeXML set the content type they were registered with)", "ranges whose q-value is not a number rank nowhere; if the router admitted the request on such a range the entity writer answers from its fallbacks (the substring lookup over the registry map, DefaultResponseMimeType, the first produced type) — documented as D17, not checked", "q=0 is treated as a weight like any other"],
  TECH + ", inductive lemmas"),
 "C06": (True,
  "Deductive proof of FilterChain.ProcessFilter's contract (exactly one dynamic call: the filter at the old index with the index advanced first, or the target once filters are exhausted; same request/response passed) including exceptional exits, of dispatch's construction of the chain (container filters, then service filters, then route filters, then the route function; error path runs container filters only), of HandleWithFilter's chain (exactly the container filters around the plain handler), and of the net/http middleware adapter closure.",
